@@ -22,6 +22,7 @@ type Clause struct {
 }
 
 type LoopSpec struct {
+	Ranges     []*Clause    // the slice expression the loop ranges over (checked at loop entry)
 	Every      []*EverySpec // calls that every completed iteration must have made
 	Invariants []*Clause
 	Decreases  *Clause
@@ -727,12 +728,14 @@ func (cs *ContractSet) parseFile(file, relDir string) error {
 			if err != nil {
 				return err
 			}
-			if f[1] == "invariant" {
+			if f[1] == "ranges" {
+				ls.Ranges = append(ls.Ranges, c)
+			} else if f[1] == "invariant" {
 				ls.Invariants = append(ls.Invariants, c)
 			} else if f[1] == "decreases" {
 				ls.Decreases = c
 			} else {
-				return fmt.Errorf("%s:%d: loop: expected invariant|decreases", file, s.line)
+				return fmt.Errorf("%s:%d: loop: expected invariant|decreases|ranges|every-iteration", file, s.line)
 			}
 		case "tolerates":
 			// tolerates call#<k> <callee> [when <expr>] "<reason>"
